@@ -70,6 +70,10 @@ pub struct AbsDb {
     pub with_validation: bool,
     pub summary: SummarySpec,
     pub streams: Vec<(String, Vec<u8>)>,
+    /// `_Validation` also holds rows about a table that does not exist
+    /// ("AddedTable", columns k and v), as real packages often do
+    #[serde(default)]
+    pub stale_validation: bool,
 }
 
 pub fn type_word(c: &AbsCol) -> i32 {
@@ -299,6 +303,11 @@ pub fn encode_db(db: &AbsDb) -> Result<Vec<u8>, String> {
                 ]);
             }
         }
+        if db.stale_validation {
+            for (col, nullable) in [("k", "N"), ("v", "Y")] {
+                vrows.push(vec![pool.intern("AddedTable"), pool.intern(col), pool.intern(nullable), Cell::Null, Cell::Null, Cell::Null, Cell::Null, Cell::Null, Cell::Null, Cell::Null]);
+            }
+        }
         let words: Vec<i32> = vcols.iter().map(|c| c.1).collect();
         streams.push((fmt::encode_name("_Validation", true), fmt::encode_table(&vrows, &words, long_refs)));
     }
@@ -375,6 +384,11 @@ pub fn expected_snapshot(db: &AbsDb) -> Snapshot {
                     if d.enums.is_empty() { V::Null } else { V::Str(d.enums.join(";")) },
                     V::Null,
                 ]);
+            }
+        }
+        if db.stale_validation {
+            for (col, nullable) in [("k", "N"), ("v", "Y")] {
+                vrows.push(vec![V::Str("AddedTable".into()), V::Str(col.into()), V::Str(nullable.into()), V::Null, V::Null, V::Null, V::Null, V::Null, V::Null, V::Null]);
             }
         }
         tables.insert("_Validation".to_string(), (vcols, vrows));
